@@ -104,6 +104,8 @@ def _case(draw):
     if F.chance(draw, 1, 4):
         fam["unnamed_sources"] = True
     if F.chance(draw, 1, 4):
+        fam["partial_locations"] = True
+    if F.chance(draw, 1, 4):
         fam.setdefault("lib", {})["public.fontInfo"] = draw(VF_INFO)
     ops = []
     for _ in range(draw(st.integers(1, 3))):
@@ -281,6 +283,8 @@ def run_case(case, ctx):
     src = case.get("spec") or case["fam"]["base"]
     lib = src.get("lib", {})
     ctx.label(case["kind"])
+    if case["kind"] == "family" and case["fam"].get("partial_locations"):
+        ctx.label("sources-with-partial-locations")
     if case["kind"] == "family" and "public.fontInfo" in case["fam"].get("lib", {}):
         ctx.label("designspace-fontinfo-override")
     if raised:
